@@ -127,7 +127,11 @@ pub fn install_panic_hook() {
                 eprintln!("[captured panic] {} at {}", msg, loc);
             }
         } else {
+            // a panic outside the code under test is a bug of the harness itself:
+            // never report it as a violation
             default(info);
+            eprintln!("harness error: internal panic in the simulator (see above)");
+            std::process::exit(2);
         }
     }));
 }
